@@ -1005,6 +1005,9 @@ pub enum Associativity {
     /// `Both` means mathematically associative, like `+` or `*`
     Both,
     Right,
+    /// `None` means that `a op b op c` has no meaning (or a different one in every database),
+    /// like comparisons: an operand of the same precedence is always parenthesised
+    None,
 }
 
 impl Associativity {
@@ -1082,8 +1085,9 @@ impl SQLExpression for BinaryOperator {
             // `*` shares its precedence level with `%` and `/`, which do not associate
             // with it: `a * (b % c)` must keep its parentheses
             Multiply => Associativity::Left,
-            // comparisons are not associative: `a = (b = c)` must keep its parentheses
-            Gt | Lt | GtEq | LtEq | Eq | NotEq => Associativity::Left,
+            // comparisons are not associative: PostgreSQL rejects `a = b < c`, SQLite reads it
+            // as `a = (b < c)` - both `(a = b) < c` and `a = (b < c)` must keep their parentheses
+            Gt | Lt | GtEq | LtEq | Eq | NotEq => Associativity::None,
             _ => Associativity::Both,
         }
     }
